@@ -142,7 +142,8 @@ def main():
             culprit = ALIAS.get(c["name"], c["name"])
             if len(c["members"]) > 1:
                 same = [m for m in c["members"] if single_fail.get((c["sampler"], m)) == key]
-                culprit = ALIAS.get(same[0], same[0]) if same else "row(" + c["name"] + ")"
+                # a failure that no member shows on its own is keyed by its call site (exception type @ innermost nessai function), not by the random row
+                culprit = ALIAS.get(same[0], same[0]) if same else "option-combination"
             chk.violation(f"C20:{c['sampler']}:{culprit}:{key}", f"{c['sampler']} option case {c['name']} kwargs={c['kwargs']} run_kwargs={c['run_kwargs']}: {detail}", small)
     chk.extra["verdict_table"] = dict(sorted(table.items())) if chk.quick else {k: v for k, v in sorted(table.items()) if v != "held"}
     chk.extra["budgets"] = "per run: latent batches per population 1500 (nominal <= 100), INS draw batches per draw 500 (nominal 1-2), standard iterations 80 x nlive (nominal 5-8 x nlive), " \
